@@ -50,8 +50,33 @@ pub struct Out {
     pub exhaustive: bool,
     /// optional classification of an operation (by index), used to match recorded known findings structurally
     pub keys: BTreeMap<usize, String>,
+    /// operation lines of this run on which the library returned an error (a few per operation kind), re-executed between later
+    /// operations: an error path must leave no state behind (scratch buffers cleared only on success, half-updated memos)
+    pub failing: Vec<(String, String)>,
+    pub opcount: u64,
 }
+/// failing parses of the shared decoders, used as "poison" before any failing line of the run itself is known
+const POISON: [&str; 6] = ["varint_dec 80", "varint_dec 8000", "varint_dec ffffffffffffffffffff7f", "varint_dec 8180", "c01_dec tx 02", "c01_dec tx 0200018080"];
 impl Out {
+    /// error-then-valid interleaving: before every fifth operation one FAILING operation is executed (a universal one, or a line of
+    /// this run that failed); a recorded failing line must fail in the same way again
+    fn poison(&mut self) {
+        self.opcount += 1;
+        if self.opcount % 5 != 0 { return; }
+        let k = (self.opcount / 5) as usize;
+        let n = POISON.len() + self.failing.len();
+        let i = k % n;
+        if i < POISON.len() { let _ = crate::exec_line(POISON[i]); self.stat("poison.universal"); }
+        else {
+            let (l, want) = self.failing[i - POISON.len()].clone();
+            let again = crate::exec_line(&l);
+            self.direct_checks += 1; self.stat("poison.own-failing-line");
+            if again != want && self.failures.len() < 50 {
+                self.failures.push(serde_json::json!({"what": "purity: a failing operation gave a different result when executed again later (state left behind by an error path or by the operations in between)",
+                    "input": trunc(&l, 600), "impl": trunc(&again, 300), "expected": trunc(&want, 300), "last_op": l}));
+            }
+        }
+    }
     /// one operation executed by the implementation; `nontrivial` per the family's stated rule
     pub fn case(&mut self, op: String, imp: String, nontrivial: bool) {
         if nontrivial { self.nontrivial.insert(op.clone()); }
@@ -63,7 +88,12 @@ impl Out {
     }
     /// execute one operation line on the implementation (panics are caught and reported as the result)
     pub fn op(&mut self, line: String, nontrivial: bool) -> String {
+        self.poison();
         let imp = crate::exec_line(&line);
+        if (imp == "err" || imp.starts_with("err ") || imp.starts_with("Err")) && line.len() < 2000 && !line.starts_with("c04_") && self.failing.len() < 60 {
+            let kind = line.split(' ').next().unwrap_or("").to_string();
+            if self.failing.iter().filter(|(l, _)| l.split(' ').next() == Some(kind.as_str())).count() < 4 { self.failing.push((line.clone(), imp.clone())); }
+        }
         self.case(line, imp.clone(), nontrivial);
         imp
     }
